@@ -193,7 +193,8 @@ def tlc_jobs(ck, dev):
     jobs["coverage"] = pool.submit(verify, "coverage", True, PageSets="<- BothPages", EarlyClose="FALSE")
     jobs["verify2"] = pool.submit(verify, "verify2")
     if ck.tier == "thorough":
-        jobs["verify3"] = pool.submit(verify, "verify3", MaxCalls=3, MaxLive=3)
+        jobs["verify3"] = pool.submit(verify, "verify3", MaxCalls=3, MaxLive=3, EarlyClose="FALSE", ClientCalls="FALSE",
+                                      PageSets="<- TwoPageSets")
 
     def refute(d):
         docs, calls = REFUTE_IN[d]
@@ -215,8 +216,9 @@ def tlc_jobs(ck, dev):
     else:
         hist.append(("hist2", dict(MaxCalls=2, MaxLive=2, EarlyClose="TRUE", Kinds='{"text", "xml", "pages"}')))
         # three interleaved generators over all document / caching combinations, both pages each, exhausted by the caller
-        hist.append(("hist3", dict(MaxCalls=3, MaxLive=3, EarlyClose="FALSE", AutoClose="TRUE", Kinds="{}", PageSets="<- BothPages",
-                                   ClientCalls="FALSE")))
+        for label, flag in (("hist3", "{TRUE}"), ("hist3n", "{FALSE}")):
+            hist.append((label, dict(MaxCalls=3, MaxLive=3, EarlyClose="FALSE", AutoClose="TRUE", Kinds="{}", PageSets="<- BothPages",
+                                     ClientCalls="FALSE", Cachings=flag)))
     for label, kw in hist:
         emit = os.path.join(ck.tmp, "c12_%s.ndjson" % label)
         jobs[label] = (pool.submit(history, label, emit, **kw), emit, kw)
@@ -251,6 +253,20 @@ def pages0(ps):
     return sorted(p - 1 for p in ps)
 
 
+def note_mismatch(out, si, pos, kind, key, cl, detail):
+    """differences explained by an address deviation are counted (one example each); real ones are kept (bounded)"""
+    if cl == "diff":
+        if len(out["mismatch"]) < 200:
+            out["mismatch"].append((si, pos, kind, key, cl, detail))
+        out["ndiff"] = out.get("ndiff", 0) + 1
+    else:
+        for d in cl:
+            e = out.setdefault("dev", {}).setdefault(d, [0, None])
+            e[0] += 1
+            if e[1] is None:
+                e[1] = (si, pos, kind, key, [d], detail)
+
+
 def replay_schedule(sched, docs, fresh, out, si, auto=False):
     from pdfminer.high_level import extract_pages
     slots = {}
@@ -263,7 +279,7 @@ def replay_schedule(sched, docs, fresh, out, si, auto=False):
             got = client_cmap(ev["d"])
             out["calls"] += 1
             if got != [99]:
-                out["mismatch"].append((si, pos, "client", "usecmap", "diff", "client CMap decodes its own code as %r" % (got,)))
+                note_mismatch(out, si, pos, "client", "usecmap", "diff", "client CMap decodes its own code as %r" % (got,))
             continue
         s, d, c, ps = ev["s"], ev["d"], ev["c"], pages0(ev["ps"])
         if a == "open":
@@ -282,17 +298,17 @@ def replay_schedule(sched, docs, fresh, out, si, auto=False):
             out["pages"] += 1
             cl = classify("pages", [got], [want])
             if cl is not None:
-                out["mismatch"].append((si, pos, "pages", key, cl, first_difference([got], [want])))
+                note_mismatch(out, si, pos, "pages", key, cl, first_difference([got], [want]))
             if auto and k + 1 >= len(fresh[key]):
                 # AutoClose: the caller's loop asks for the next page right away and the generator ends
                 if next(gen, end) is not end:
-                    out["mismatch"].append((si, pos, "pages", key, "diff", "the generator yields more pages than a fresh call"))
+                    note_mismatch(out, si, pos, "pages", key, "diff", "the generator yields more pages than a fresh call")
                 slots.pop(s)
         elif a == "close":
             gen, key, k = slots.pop(s)
             if k >= len(fresh[key]):
                 if next(gen, end) is not end:
-                    out["mismatch"].append((si, pos, "pages", key, "diff", "the generator yields more pages than a fresh call"))
+                    note_mismatch(out, si, pos, "pages", key, "diff", "the generator yields more pages than a fresh call")
             else:
                 gen.close()
         elif a == "extract":
@@ -303,7 +319,7 @@ def replay_schedule(sched, docs, fresh, out, si, auto=False):
             out["pages"] += len(ps)
             cl = classify(kind, got, fresh[key])
             if cl is not None:
-                out["mismatch"].append((si, pos, kind, key, cl, first_difference(got, fresh[key])))
+                note_mismatch(out, si, pos, kind, key, cl, first_difference(got, fresh[key]))
     for s, (gen, key, k) in slots.items():
         gen.close()
 
@@ -314,7 +330,7 @@ def replay_chunk(idxs):
     before = OBS.shared_tables()
     for si in idxs:
         replay_schedule(G["scheds"][si], G["docs"], G["fresh"], out, si, G["auto"])
-        if len(out["mismatch"]) > 200:
+        if out.get("ndiff", 0) > 2000:
             break
     after = OBS.shared_tables()
     for x in OBS.table_delta(before, after):
@@ -389,7 +405,7 @@ def model_drift(ck, scheds, single, tokens):
 def direction_a(ck, jobs, fp, docs, fresh, single, tokens):
     nproc = max(2, min(8, (os.cpu_count() or 4) // 2))
     total_sched = 0
-    for label in ("hist2", "hist3"):
+    for label in ("hist2", "hist3", "hist3n"):
         if label not in jobs:
             continue
         fut, emit, kw = jobs[label]
@@ -416,12 +432,17 @@ def direction_a(ck, jobs, fp, docs, fresh, single, tokens):
         ctx = multiprocessing.get_context("fork")
         pages = calls = 0
         pids = set()
+        devhits, devseen = {}, set()
         with ctx.Pool(nproc) as mp:
             for chunk, out in zip(chunks, mp.imap(replay_chunk, chunks)):
                 pages += out["pages"]
                 calls += out["calls"]
                 pids.add(out["pid"])
-                for (si, pos, kind, key, cl, detail) in out["mismatch"][:50]:
+                for d, (n, ex) in sorted(out.get("dev", {}).items()):
+                    devhits[d] = devhits.get(d, 0) + n
+                found = out["mismatch"][:50] + [ex for d, (n, ex) in sorted(out.get("dev", {}).items()) if d not in devseen]
+                devseen.update(out.get("dev", {}))
+                for (si, pos, kind, key, cl, detail) in found:
                     ev = scheds[si][pos]
                     upto = chunk[max(0, chunk.index(si) - 40): chunk.index(si) + 1]
                     report(ck, "history-dependent", kind, cl,
@@ -452,7 +473,10 @@ def direction_a(ck, jobs, fp, docs, fresh, single, tokens):
         ck.replayed += len(scheds)
         total_sched += len(scheds)
         ck.extra["replay_%s" % label] = {"schedules": len(scheds), "page_results_compared": pages, "calls": calls,
-                                        "replay_processes": len(pids)}
+                                        "replay_processes": len(pids), "results_equal_only_up_to_address_components": devhits}
+        want_pages = sum(1 for sc in scheds for ev in sc if ev["a"] == "page")
+        if pages != want_pages and not ck.violations:
+            raise MachineryError("replay of %s compared %d page results, the schedules contain %d" % (label, pages, want_pages))
     return total_sched
 
 
@@ -803,8 +827,9 @@ def replay(path):
             out = {"mismatch": [], "pages": 0, "calls": 0}
             for i, sc in enumerate(c["schedules"]):
                 replay_schedule(sc, docs, fresh, out, i, bool(c.get("auto")))
-            print("replayed %d schedules, %d page results, %d mismatches" % (len(c["schedules"]), out["pages"], len(out["mismatch"])))
-            for m in out["mismatch"][:10]:
+            print("replayed %d schedules, %d page results, %d differences, %s equal only up to address components"
+                  % (len(c["schedules"]), out["pages"], len(out["mismatch"]), {d: n for d, (n, _) in out.get("dev", {}).items()}))
+            for m in out["mismatch"][:10] + [ex for (_, ex) in out.get("dev", {}).values()]:
                 print("  schedule %d event %d %s %r: %s\n    %s" % m)
         elif c.get("kind") in ("recorded-call", "fresh-call"):
             if c.get("kind") == "recorded-call":
